@@ -390,6 +390,8 @@ func keysOf(m map[string]interface{}) []string {
 	return k
 }
 
+var prevDump, prevDumpClone string
+
 func checkDump(c *DumpCase) string {
 	rv := desc.Build(desc.Type(c.T), c.V)
 	src := rv.Interface()
@@ -397,6 +399,21 @@ func checkDump(c *DumpCase) string {
 	if p := ev.Guard(func() { dump = valid.GetDumpStructStr(src) }); p != nil {
 		return fmt.Sprintf("panic: %v", p)
 	}
+	// the output handed out must stay what it was: the previous dump (kept with a private copy taken
+	// on receipt) is re-read after this one, and this one is dumped a second time in between
+	if prevDump != prevDumpClone {
+		return fmt.Sprintf("an earlier dump output changed after later dumps: was %q, now reads %q", prevDumpClone, prevDump)
+	}
+	clone := strings.Clone(dump) // private copy taken on receipt
+	var again string
+	if p := ev.Guard(func() { again = valid.GetDumpStructStr(src) }); p != nil {
+		return fmt.Sprintf("panic on the second dump of the same value: %v", p)
+	}
+	_ = again // (its text may differ from the first in the order of Go-map entries)
+	if dump != clone {
+		return fmt.Sprintf("the dump output changed when the same value was dumped again: now reads %q, was %q", dump, clone)
+	}
+	prevDump, prevDumpClone = dump, clone
 	std, err := json.Marshal(src)
 	if err != nil {
 		return "" // outside the domain of the standard encoder
